@@ -191,10 +191,61 @@ def _run(V, work, tier):
                 break
         if i % 300 == 1:
             V.sample({"history": [expr(st["op"]) for st in hh["log"]], "final": str([norm_model(r) for r in hh["log"][-1]["after"]])[:400]})
+    # ---- byte strings (Bytes.tla): every history of LEN operations over three variables, every variable after every step
+    blen = 3
+    bh = []
+
+    def bsink(rec):
+        bh.append(rec)
+    bres = run_tlc(work, "Bytes", "SPECIFICATION Spec\nCONSTANTS LEN = %d\nPROPERTY Frame\nCHECK_DEADLOCK FALSE\n" % blen, timeout=3000, line_sink=bsink)
+    V.tlc(bres, "Bytes exhaustive: all %d histories of %d operations (append-bytes!, append-bytes, append!, aliasing); Frame" % (len(bh), blen))
+    if bres.violated or bres.error:
+        raise MachineryError("Bytes.tla failed: %s %s" % (bres.violated, bres.error))
+    if len(bh) < 30000:
+        raise MachineryError("Bytes.tla printed only %d histories" % len(bh))
+    if not thorough:
+        rndb = random.Random(seed())
+        # the quick tier keeps every history made only of in-place appends (the aliasing hazards) and a sample of the rest
+        inplace = [x for x in bh if all(st["op"]["op"] in ("append-bytes!", "append!") for st in x["hist"])]
+        rest = [x for x in bh if not all(st["op"]["op"] in ("append-bytes!", "append!") for st in x["hist"])]
+        bh = inplace + rndb.sample(rest, min(len(rest), 4000))
+    BPRE = "(set 'g1 (to-bytes \"ab\")) (append-bytes! g1 \"cd\") (set 'g2 (to-bytes \"\")) (set 'g3 (to-bytes \"xyz\"))"
+
+    def bsrc(o):
+        a = {"str": "\"yz\"", "list": "'(7 8)"}.get(o.get("src"), o.get("src"))
+        if o["op"] == "append-bytes!":
+            return "(append-bytes! %s %s)" % (o["x"], a)
+        if o["op"] == "append-bytes":
+            return "(set '%s (append-bytes %s %s))" % (o["x"], o["y"], a)
+        if o["op"] == "append!":
+            return "(append! %s 33)" % o["x"]
+        return "(set '%s %s)" % (o["x"], o["y"])
+    bdrv = []
+    for i, x in enumerate(bh):
+        forms = [BPRE]
+        for st in x["hist"]:
+            forms.append(bsrc(st["op"]))
+            forms.append("(probe g1 g2 g3)")
+        bdrv.append({"id": i, "src": "\n".join(forms), "cfg": {"nocount": True, "nostdlib": True}})
+    breal = {r["id"]: r["runs"][0]["evals"][0] for r in driver_json(binary, ["run"], bdrv, timeout=3000)}
+    for i, x in enumerate(bh):
+        probes = breal[i].get("probes") or []
+        for si, st in enumerate(x["hist"]):
+            if si >= len(probes):
+                V.add(None, "byte-string history stopped at step %d (%s): %s" % (si, bsrc(st["op"]), (breal[i].get("err") or {}).get("msg")), {"src": bdrv[i]["src"]})
+                break
+            want_ = [bytes(st["after"][g]).hex() for g in ("g1", "g2", "g3")]
+            got = [t.get("s") if t.get("t") == "bytes" else json.dumps(t) for t in probes[si]["tag"]]
+            if want_ != got:
+                j = [k for k in range(3) if want_[k] != got[k]][0]
+                V.add(None, "byte strings share storage or lose writes: after step %d %s, g%d holds %s, the model says %s" % (si, bsrc(st["op"]), j + 1, got[j], want_[j]),
+                      {"src": bdrv[i]["src"], "step": si})
+                break
+    V.coverage["byte_string_histories"] = len(bh)
     V.coverage["histories_replayed"] = len(uniq)
     V.coverage["operations_by_kind"] = opcount
     V.coverage["traces_validated_against_impl"] = len(uniq)
     V.coverage["exhaustive"] = False
     V.coverage["explanation"] = "exhaustive model checking of all 2-operation histories; %d distinct simulated histories of 5-6 operations replayed with every variable re-inspected after every step" % len(uniq)
-    V.assumptions += ["byte strings (append-bytes), zip and insert-sorted are not in the operation alphabet of the heap model"]
+    V.assumptions += ["zip and insert-sorted are not in the operation alphabet of the heap model; byte strings have their own model (Bytes.tla) without views"]
     return V.finish()
